@@ -12,6 +12,7 @@ import Driver.Sess
 import Driver.Own
 import Driver.Write
 import Driver.Par
+import Driver.Limited
 
 open Drv
 
@@ -34,6 +35,7 @@ def dispatch (line : String) : Res :=
   | "own" :: args => runOwn args
   | "write" :: args => runWrite args
   | "par" :: args => runPar args
+  | "limited" :: args => runLimited args
   | "racy" :: args => runRacy args
   | _ => bad "unknown-suite"
 
